@@ -27,9 +27,9 @@ type Profile struct {
 	ETs        []int
 	LDs        []int
 	Timeouts   []int
-	EpilogueET int  // fault-free suffix length in election timeouts
-	Prologue   bool // wait for a first leader before the schedule starts
-	BoundedNet bool // never hold messages (C17: delay bound is part of the property)
+	EpilogueET int      // fault-free suffix length in election timeouts
+	Prologue   bool     // wait for a first leader before the schedule starts
+	BoundedNet bool     // never hold messages (C17: delay bound is part of the property)
 	Combos     [][3]int // if set: (ET ms, LD ms, max delay us) drawn together
 }
 
